@@ -190,6 +190,7 @@ func absSubLists(l uePolicyContainer.UEPolicySectionManagementListContent) []uSu
 }
 
 func c18MsgExec(c *core.Ctx, in c18Msg) {
+	c.Distinct(core.Hash64("msg", fmt.Sprint(in)), len(in.Subs)+len(in.SubRes) > 0)
 	fail := func(k, w string) { c.FailCase("roundtrip|"+in.Kind+"|"+k, w, "msg", in) }
 	var enc []byte
 	var err error
@@ -469,6 +470,7 @@ func c18ReuseExec(c *core.Ctx, in c18Msg) {
 
 func c18RawExec(c *core.Ctx, in c18Raw) {
 	data := unhex(in.Hex)
+	c.Distinct(core.Hash64(in.Parser, data), len(data) >= 3)
 	pi := core.Try(func() {
 		cp := append([]byte{}, data...)
 		switch in.Parser {
@@ -499,6 +501,7 @@ func c18RawExec(c *core.Ctx, in c18Raw) {
 var c18Parsers = []string{"UePolDeliverySerDecode", "SectionManagementListContent", "SectionManagementResultContent", "SubListContents", "SectionContents", "SubResultContents"}
 
 func c18PlmnExec(c *core.Ctx, in c18Plmn) {
+	c.Distinct(core.Hash64("plmn", in.Mcc, in.Mnc), true)
 	var sub uePolicyContainer.UEPolicySectionManagementSubList
 	var res uePolicyContainer.UEPolicySectionManagementSubResult
 	var e1, e2 error
@@ -754,6 +757,6 @@ func init() {
 			return "totality: every byte string of length <= " + l + " over a 12-value alphabet into the six parsers (delivery message, section-management list content, result content, sub-list contents, section contents, sub-result contents), all 256 message types, and the <=2-mutation neighbourhood of valid encodings of every message kind; round trip: command messages with 0..2 sublists x 0..2 instructions x 0..2 policy parts (content lengths 0,1,2,300) with and without classmark, complete with every PTI, reject with 0..2 sub-results x 0..2 results, nested lists alone, all built through the API only, lists serialised again after their part contents were replaced through the API, and lists built with one reused builder value for all parts; PLMN: every MCC 100..999 x every MNC 10..999. Oracle: no panic; encoded bytes equal a reference encoder (every length field = length of what follows, PLMN per TS 24.008 10.5.1.3 as produced by nasConvert.PlmnIDToNas); decode(encode(m)) yields the same structure."
 		},
 		Assumptions: []string{"result causes are normalised to 'protocol error, unspecified' by the encoder itself"},
-		Finish:      func(m *core.Merged, cov map[string]any) { cov["distinct_nontrivial"] = m.Counters["evaluations"] },
+		Finish:      finishDistinct("distinct by (parser, input octets) / message description / PLMN; non-trivial = raw inputs of at least three octets, messages with at least one sublist or sub-result, every PLMN"),
 	})
 }
